@@ -78,6 +78,82 @@ def sym_groups(tier, seed):
                    "calls": [call(t, {nm: 2 + (k % 3) for k, nm in enumerate(sorted(set(i for o in t for i in o)))}, 3) for t in fixed_topologies() if valid(t)]})
     return groups
 
+# ---------------------------------------------------------------------------------------------------
+# real element types, 3..6 operands (harness/einsum_real.h, erealn): exact small-integer data against the naive Einstein
+# sum over all index assignments, declared extents compared too.  5 and more operands only under C++17 (under C++14 the
+# library rejects them for non-uniform extents: known finding ES5-CXX14 recorded under C06).
+def chain(n): return [[k, k + 1] for k in range(n)]
+def ntops(n, rng, tier):
+    tops = [chain(n)]
+    if n == 3: tops += [[[0, 1], [2, 3], [1, 3]], [[0, 1, 2], [2, 3], [3, 4, 1]], [[0], [0, 1], [1]], [[0, 1], [2], [1, 2]], [[0, 1], [1, 2], [2, 0]]]
+    if n == 4: tops += [[[0, 1], [2, 3], [1, 3], [0, 4]], [[0, 1], [1, 2], [2, 3], [3, 0]], [[0, 1, 2], [2, 3], [3, 4], [4, 1]]]
+    if n == 5: tops += [[[0, 1], [1, 2, 3], [3, 4], [4, 5], [5, 2]], [[0], [0, 1], [1, 2], [2, 3], [3]]]
+    if n == 6: tops += [[[0, 1], [1, 2], [2, 3], [3, 4], [4, 5], [5, 0]]]
+    for _ in range(2 if tier == "quick" else 12):
+        t = lab3(rng, n, tier)
+        if valid(t): tops.append(t)
+    return tops
+
+def real_groups(tier, seed):
+    rng = random.Random(seed * 1777 + 13)
+    if tier == "quick":
+        cells = [("sse2", "c++14", []), ("avx2", "c++17", []), ("avx512", "c++17", []), ("sse2", "c++17", ["-DFASTOR_DONT_PERFORM_OP_MIN"]), ("avx2", "c++14", ["-DFASTOR_DONT_PERFORM_OP_MIN"])]
+    else:
+        cells = [(isa, std, d) for isa in core.ALL_ISAS for std in ("c++14", "c++17") for d in ([], ["-DFASTOR_DONT_PERFORM_OP_MIN"])]
+    groups = []
+    for ci, (isa, std, defs) in enumerate(cells):
+        types = ["double", "float"] if tier == "quick" else ["double", "float", "int32_t", "int64_t"]
+        if tier == "quick" and ci % 2 == 0: types = types + ["int32_t" if ci % 4 == 0 else "int64_t"]
+        for t in types:
+            cands = []
+            for n in (3, 4, 5, 6):
+                if n >= 5 and std == "c++14" and not defs:
+                    continue
+                if n == 6 and tier == "quick" and t != "double":
+                    continue
+                for top in ntops(n, rng, tier):
+                    names = sorted(set(i for o in top for i in o))
+                    cat = [i for o in top for i in o]
+                    free_ops = [k for k, o in enumerate(top) if any(cat.count(i) == 1 for i in o)]
+                    if n >= 5 and not set(free_ops) <= {0, n - 1}:
+                        continue        # no model of the 5+ operand order: keep to topologies whose result order no pairing can change
+                    for variant in range(3 if tier == "quick" else 5):
+                        # shrinking / growing / mixed extents make different pairwise orders the cheapest
+                        if variant == 0: ext = {nm: 2 + (len(names) - 1 - k) % 6 for k, nm in enumerate(names)}
+                        elif variant == 1: ext = {nm: 2 + k % 6 for k, nm in enumerate(names)}
+                        elif variant == 2: ext = {nm: rng.choice([2, 3, 4, 8]) for nm in names}
+                        else: ext = {nm: rng.choice([2, 3, 5, 6, 7]) for nm in names}
+                        total = 1
+                        for nm in names: total *= ext[nm]
+                        big = max(len(o) for o in top)
+                        if total > (3000 if n <= 4 else 1500) or big > 4:
+                            continue
+                        cands.append((n, top, ext))
+            # the index-order defect F9 (known finding, decided by the symbolic part of this check against the Lean model)
+            # makes some 3-/4-operand results come out in the pairwise-evaluation order: ask the model which candidates keep the
+            # declared order and run only those here, so that every failure of this family is a NEW violation
+            q = [(n, top, ext) for (n, top, ext) in cands if n <= 4]
+            keep = set()
+            if q:
+                lines = ["einsumn n=%d opmin=%d %s" % (n, 0 if defs else 1, " ".join("I%d=%s d%d=%s" % (k, ",".join(map(str, o)), k, ",".join(str(ext[i]) for i in o))
+                                                                                      for k, o in enumerate(top))) for (n, top, ext) in q]
+                for (n, top, ext), mo in zip(q, core.fmodel(lines)):
+                    cat = [i for o in top for i in o]
+                    declared = ",".join(str(i) for i in cat if cat.count(i) == 1)
+                    ridx = symrun.kv(mo).get("RIDX", declared if declared else "-")
+                    if ridx in (declared, "-" if not declared else declared, "") or (not declared):
+                        keep.add((n, repr(top), tuple(sorted(ext.items()))))
+            calls = []
+            for (n, top, ext) in cands:
+                if n <= 4 and (n, repr(top), tuple(sorted(ext.items()))) not in keep:
+                    continue
+                inds = ",".join("Index<%s>" % ",".join(map(str, o)) for o in top)
+                tens = ",".join("Tensor<%s,%s>" % (t, ",".join(str(ext[i]) for i in o)) for o in top)
+                calls.append("erealn<%s, tlist<%s>, tlist<%s>>::run(%du);" % (t, inds, tens, seed * 7 + len(calls)))
+            groups.append({"key": "%s/%s/%s/%s" % (isa, std, "noopmin" if defs else "opmin", t), "header": "einsum_real.h", "isa": isa, "std": std,
+                           "opt": "-O2", "defs": defs, "calls": calls})
+    return groups
+
 def ofail_key(f):
     io = symrun.kv(f["impl"]); mo = symrun.kv(f["model"]); d = symrun.kv(f["input"])
     # the implementation computes exactly what the model computes, and the model's computed index order differs from the declared one
@@ -88,7 +164,7 @@ def ofail_key(f):
 
 def run(tier, seed):
     return flow.standard_run(
-        PID, tier, seed, "Fastor.C15.(see Props/C15.lean)", "FastorModel.Model.Network", sym_groups, None,
+        PID, tier, seed, "Fastor.C15.(see Props/C15.lean)", "FastorModel.Model.Network", sym_groups, real_groups,
         assumptions=["every index name occurs at most twice over all operands", "exact symbolic data"],
         rule="3- and 4-operand index-sharing topologies (chains, cycles, shared outer operands, seeded random labelings with each name at most twice), "
              "several extent assignments each so that different evaluation orders are the cheapest; non-trivial = the cost model picks a variant other than 0",
